@@ -383,6 +383,26 @@ Definition set_core (f : full) (s : st) (lsc : Z) (spp spr spfs spfe : bool) (sb
      f_sbs := sbs; f_flap := fl; f_paused := f_paused f; f_next_check := nc;
      f_parent_checked := f_parent_checked f; f_parent_up := f_parent_up f; f_parent_lsc := f_parent_lsc f |}.
 
+(* ProcessCheckResult lines 271-277: "remove acknowledgements" on a state change *)
+Definition ack_on_change (k : kind) (now : Z) (state_change : bool) (new_state : sstate) (f0 : full)
+  : full * list out :=
+  if state_change then
+    let '(a, fa, oa) := get_ack now f0 in
+    if ackt_eqb a AckNormal then let '(fb, ob) := clear_ack fa in (fb, oa ++ ob)
+    else
+      (* the second GetAcknowledgement() of the || is evaluated on the possibly expired value *)
+      let '(a2, fa2, oa2) := get_ack now fa in
+      if ackt_eqb a2 AckSticky && is_ok k new_state
+      then let '(fb, ob) := clear_ack fa2 in (fb, oa ++ oa2 ++ ob)
+      else (fa2, oa ++ oa2)
+  else (f0, []).
+
+(* Checkable::GetHandled, read through the API *)
+Definition get_handled (c : fcfg) (now : Z) (f : full) : bool :=
+  let k := c_kind (fc_base c) in
+  let problem := s_has_cr (f_st f) && negb (is_ok k (s_raw (f_st f))) in
+  problem && (existsb (dt_in_effect now) (f_dts f) || negb (ackt_eqb (fst (fst (get_ack now f))) AckNone)).
+
 (* Checkable::ProcessCheckResult for a passive result without ttl *)
 Definition do_result (c : fcfg) (now : Z) (r : cres) (f : full) : full * list out :=
   let b := fc_base c in
@@ -398,17 +418,7 @@ Definition do_result (c : fcfg) (now : Z) (r : cres) (f : full) : full * list ou
     let f0 := set_core f s' lsc (f_sp_problem f) (f_sp_recovery f) (f_sp_fstart f) (f_sp_fend f)
                        (f_sbs f) (f_flap f) (f_next_check f) in
     (* remove acknowledgements on state change (lines 271-277) *)
-    let '(f1, o1) :=
-      if i_state_change i then
-        let '(a, fa, oa) := get_ack now f0 in
-        if ackt_eqb a AckNormal then let '(fb, ob) := clear_ack fa in (fb, oa ++ ob)
-        else
-          (* the second GetAcknowledgement() of the || is evaluated on the possibly expired value *)
-          let '(a2, fa2, oa2) := get_ack now fa in
-          if ackt_eqb a2 AckSticky && is_ok k new_state
-          then let '(fb, ob) := clear_ack fa2 in (fb, oa ++ oa2 ++ ob)
-          else (fa2, oa ++ oa2)
-      else (f0, []) in
+    let '(f1, o1) := ack_on_change k now (i_state_change i) new_state f0 in
     (* remove_acknowledgement_comments (line 281) *)
     let '(a3, f2, o2) := get_ack now f1 in
     let rm_comments := ackt_eqb a3 AckNone in
